@@ -1,4 +1,6 @@
 import FmpRpc.Proofs.TransportInv
+import FmpRpc.Proofs.TransportInvA4
+import FmpRpc.Proofs.TransportInvA5
 /-
   C01 — every call is answered by its own handler invocation, exactly once.
   Single-endpoint statements over every reachable state of `Model/Transport`
@@ -14,8 +16,8 @@ def issuedSeqs (h : List Evt) : List Int :=
 
 /-- Sequence numbers of the calls issued on one transport are pairwise
     distinct, for the life of the transport. -/
-theorem seq_distinct (s : St) (hr : Reachable s) : (issuedSeqs s.hist).Nodup := by
-  sorry
+theorem seq_distinct (s : St) (hr : Reachable s) : (issuedSeqs s.hist).Nodup :=
+  (HInv_reach s hr).iss_nd
 
 /-- A call frame reaches the writer only while the pending table maps its
     seqno to the issuing call (AddCall precedes the hand-off; removal only on
@@ -23,7 +25,19 @@ theorem seq_distinct (s : St) (hr : Reachable s) : (issuedSeqs s.hist).Nodup := 
 theorem pending_before_wire (s s' : St) (hr : Reachable s) (x : Nat)
     (hs : step s (.wRecv x) = some s') (hk : (s.sends x).kind = .call) :
     s.pending (s.sends x).seq = some (s.sends x).who := by
-  sorry
+  have hS := SInv_reach s hr
+  have hC := CInv_reach s hr
+  simp only [step] at hs
+  split at hs
+  · simp only [hk] at hs
+    split at hs
+    · rename_i hpc
+      simp only [log, setSend] at hpc
+      have h1 := hS.cHand _ _ hpc
+      have h2 := hC.pend2 (s.sends x).who (by simp [hpc])
+      rw [h1.2.2.2.2.2]; exact h2
+    · simp at hs
+  · simp at hs
 
 /-- No caller ever observes another call's reply: the result buffer and the
     result slot of a call only ever receive responses that carry that call's
@@ -31,14 +45,66 @@ theorem pending_before_wire (s s' : St) (hr : Reachable s) (x : Nat)
 theorem reply_routing (s : St) (hr : Reachable s) (c : Nat) :
     (∀ q, (s.callers c).bufSeq = some q → q = (s.callers c).seq) ∧
     (∀ q, (s.callers c).slotSeq = some q → q = (s.callers c).seq) := by
-  sorry
+  have h := (CInv_reach s hr).loc c
+  exact ⟨fun q hq => (h.bseq q hq).1, h.sseq⟩
 
-/-- A call that returns a result returns what the response with its own seqno
-    carried (the buffer it reads was last written by such a response). -/
-theorem result_is_own (s : St) (hr : Reachable s) (c : Nat) (res : Nat) (ae : Bool)
+/- FULL STATEMENT (does NOT hold of the code, see `result_is_own_counterexample`):
+
+     theorem result_is_own … (h : (s.callers c).pc = .ret (.ok res ae)) :
+       (s.callers c).bufSeq = some (s.callers c).seq ∧ res = (s.callers c).buf
+
+   "a call that returns a result returns what is in its buffer".  The second
+   half fails when the peer sends the reply twice: the second copy is looked up
+   before the caller takes the first from its result channel and decoded
+   after (the duplicated-reply form of the known finding C12-late-write).  What
+   does hold is proved below: `result_is_own_corrected` (the buffer was last
+   written by a response with the call's own seqno) and
+   `result_taken_from_buffer` (the returned value is the buffer's content at
+   the moment the reply is taken). -/
+
+/-- the counterexample to the full statement: the peer sends the reply twice, the
+    second copy is looked up before the caller takes the first from its result
+    channel and decoded after -/
+def dupTrace : List Act :=
+  [.callStart 0, .cBegin 0, .cNew 0, .cAdd 0, .cEnc 0 true, .wRecv 0, .wNotify, .wWrite true, .wDone,
+   .cSel1Err 0, .rDeliver (.resp 0 1 false), .rLookup, .rDecode, .rDeliverSlot,
+   .rDeliver (.resp 0 2 false), .rLookup, .cSel2Res 0, .rDecode, .cFin 0, .cRm 0]
+
+theorem result_is_own_counterexample :
+    ∃ s, run init dupTrace = some s ∧ ∃ c res ae, (s.callers c).pc = .ret (.ok res ae) ∧
+      res ≠ (s.callers c).buf := by
+  have h : (run init dupTrace).map (fun s => ((s.callers 0).pc, (s.callers 0).buf)) =
+      some (.ret (.ok 1 false), 2) := rfl
+  cases hrun : run init dupTrace with
+  | none => rw [hrun] at h; simp at h
+  | some s =>
+    rw [hrun] at h
+    simp only [Option.map_some, Option.some.injEq, Prod.mk.injEq] at h
+    exact ⟨s, rfl, 0, 1, false, h.1, by rw [h.2]; decide⟩
+
+/-- CORRECTED `result_is_own`: the buffer of a call that returns a result was
+    last written by a response carrying the call's own seqno, and the value
+    returned is the content of the buffer at the moment the caller took the
+    reply from its result channel (`cSel2Res`).  (The buffer itself may be
+    overwritten afterwards by a duplicate of that response — C12.) -/
+theorem result_is_own_corrected (s : St) (hr : Reachable s) (c : Nat) (res : Nat) (ae : Bool)
     (h : (s.callers c).pc = .ret (.ok res ae)) :
-    (s.callers c).bufSeq = some (s.callers c).seq ∧ res = (s.callers c).buf := by
-  sorry
+    (s.callers c).bufSeq = some (s.callers c).seq :=
+  ((CInv_reach s hr).loc c).okb res ae (by simp [h])
+
+theorem result_taken_from_buffer (s s' : St) (hr : Reachable s) (c : Nat)
+    (hs : step s (.cSel2Res c) = some s') :
+    ∃ ae, (s'.callers c).pc = .fin (.ok (s.callers c).buf ae) ∧
+      (s.callers c).bufSeq = some (s.callers c).seq ∧ (s'.callers c).buf = (s.callers c).buf := by
+  have hC := (CInv_reach s hr).loc c
+  simp only [step] at hs
+  split at hs
+  · split at hs
+    · rename_i v ae hsl
+      injection hs with hs; subst hs
+      exact ⟨ae, by simp, hC.slot _ hsl, by simp⟩
+    · simp at hs
+  · simp at hs
 
 def invokedCount (h : List Evt) (hd : Nat) : Nat :=
   (h.filter fun e => match e with | .invoked h' _ _ => h' == hd | _ => false).length
@@ -50,7 +116,12 @@ theorem invoke_once (s : St) (hr : Reachable s) (hd : Nat) :
     invokedCount s.hist hd ≤ 1 ∧
     ((s.handlers hd).pc ≠ .absent → invokedCount s.hist hd = 1) ∧
     (∀ q a, Evt.invoked hd q a ∈ s.hist → q = (s.handlers hd).seq ∧ a = (s.handlers hd).arg) := by
-  sorry
+  have hB := HBInv_reach s hr
+  have hc : invokedCount s.hist hd = if (s.handlers hd).pc = .absent then 0 else 1 := hB.cnt hd
+  refine ⟨?_, ?_, ?_⟩
+  · rw [hc]; split <;> omega
+  · intro hne; rw [hc, if_neg hne]
+  · intro q a hm; exact (hB.inv hd q a hm).2
 
 /-- At most one reply frame per invocation is ever handed to the writer, and
     the reply a handler sends carries the seqno of its request. -/
@@ -58,6 +129,13 @@ theorem one_reply (s : St) (hr : Reachable s) (hd : Nat) :
     (s.handlers hd).replies ≤ 1 ∧
     (∀ x, ((s.handlers hd).pc = .rHand x ∨ (s.handlers hd).pc = .rSel x) →
       (s.sends x).kind = .reply ∧ (s.sends x).seq = (s.handlers hd).seq ∧ (s.sends x).who = hd) := by
-  sorry
+  have hA := (HAInv_reach s hr).loc hd
+  have hS := SInv_reach s hr
+  refine ⟨hA.2.1, ?_⟩
+  rintro x (hpc | hpc)
+  · have := hS.hHand hd x hpc
+    exact ⟨this.2.2.1, this.2.2.2.2.2.1, this.2.2.2.1⟩
+  · have := hS.hSel hd x hpc
+    exact ⟨this.2.1, this.2.2.2, this.2.2.1⟩
 
 end FmpRpc.C01
